@@ -23,6 +23,8 @@ def exprs_for(p, r):
     if w == 'PANIC' or 'all' not in w:
         return None
     sets = coq_list(coq_triples(w['set%d' % k]) for k in range(4))
+    if w.get('sub') is None:
+        return ['check_c01_nosub p%d %s %s %s' % (j, coq_triples(w['all']), sets, coq_nums(w['single'])), 'stats_c01 p%d' % j]
     return ['check_c01 p%d %s %s %s %s' % (j, coq_triples(w['all']), coq_nums(w['sub']), sets, coq_nums(w['single'])),
             'stats_c01 p%d' % j]
 
